@@ -96,6 +96,9 @@ func c02Profiles(tier string) []Profile {
 	conc = append(conc, Profile{Name: "after-failed-flush", Exec: OnlyOracles(c07Exec(1, 1, false), "durable", "observe", "model"),
 		Budget: map[int]int{1: 0, 2: 0, 3: 1}, ShardLevel: 3,
 		Rule: "durability of a Flush that follows a failed one: the C07 driver (5 initial stores x every single operation x one failing file call at every index, retried or not) followed by Set, Flush, a copy of the file re-opened, Reopen; contents oracles only"})
+	framed := &SeqProfile{Name: "durable-framed", Keys: keys, Depth: d - 1, Init: initX, Mon: harness.Monitors{Durable: true}, CBMask: harness.CBFramed,
+		Letters: storeLetters(true, true)}
+	conc = append(conc, framed.Profile(fmt.Sprintf("the durable profile (histories of length <= %d) with a BeforeItemWrite / AfterItemRead pair installed that stores every value with a two-byte trailer (length, checksum) and verifies and strips it on read: the stored form differs in length from the in-memory form; every state a successful Flush reported must come back through the pair after re-opening a copy of the file", d-1)))
 	return append(conc, p.Profile(fmt.Sprintf("every history of length <= %d over Set/Delete on x (2 keys x 2 priorities), Set/Delete on y, SetCollection(y) (new and existing), RemoveCollection(y), Evict, Flush, Reopen (close, open the same file, continue); at the end of every history a byte copy of the file is opened in a fresh Store and must equal the model's newest durable state (top of the flush stack, empty if none)", d)))
 }
 
